@@ -189,14 +189,14 @@ func q(b []byte) string {
 // checkLimits: if the real selection depth of any definition exceeds L (L>0) or the number of
 // field nodes exceeds F (F>0) — both measured by the independent walk over the plainly parsed
 // document — ParseWithLimits must not accept. Only that direction is demanded.
-func checkLimits(in []byte, L, F int, o labeler) pbt.Verdict {
+func checkLimits(in []byte, L, F int, o labeler, pfx string) pbt.Verdict {
 	d, rep := parseBytes(in)
 	d2 := ast.NewSmallDocument()
 	d2.Input.ResetInputBytes(in)
 	rep2 := &operationreport.Report{}
 	stats, err := astparser.NewParser().ParseWithLimits(astparser.TokenizerLimits{MaxDepth: L, MaxFields: F}, d2, rep2)
 	if rep.HasErrors() {
-		o.Label("limits:unparseable")
+		o.Label(pfx + ":unparseable")
 		return pbt.OK
 	}
 	w, _ := walkDoc(d)
@@ -208,15 +208,15 @@ func checkLimits(in []byte, L, F int, o labeler) pbt.Verdict {
 	accepted := err == nil && !rep2.HasErrors()
 	switch {
 	case overDepth && overFields:
-		o.Label("limits:over-both")
+		o.Label(pfx + ":over-both")
 	case overDepth:
-		o.Label("limits:over-depth")
+		o.Label(pfx + ":over-depth")
 	case overFields:
-		o.Label("limits:over-fields")
+		o.Label(pfx + ":over-fields")
 	default:
-		o.Label("limits:within")
+		o.Label(pfx + ":within")
 		if !accepted {
-			o.Label("limits:within-but-rejected") // allowed: the accounting is conservative
+			o.Label(pfx + ":within-but-rejected") // allowed: the accounting is conservative
 		}
 		return pbt.OK
 	}
